@@ -1,7 +1,48 @@
-(* C06  Server enforces request deadlines, never early.  Statements only. *)
+(* C06  Server enforces request deadlines, never early.
+   Statements only.  Proofs: coq/ServerState.v, coq/ServerSim4.v, coq/ServerWitness.v.
+
+   Proved here (state form, every transport, every state):
+     - the timer armed for a request is due at min(deadline, now + MAX_TIMEOUT) or later (the
+       F5 clamp: a deadline more than 365 days away is enforced after 365 days), so
+     - expiry (poll_expired) only ever takes a timer that is due: never early; it aborts exactly
+       that request's handle and forgets exactly that request (frame: the others stay);
+     - when BaseChannel::poll_next goes idle (Pending / None) no timer is due any more, and no
+       server-side cancel is pending: every deadline that has passed has been enforced;
+     - an aborted execute() never polls its handler again and buffers nothing (C04's lemma).
+   K2 (known finding): with MaxRequests at its limit and the sink not ready the inner channel is
+   not polled, so the third item does not happen until the sink is ready: witness theorem.
+   NOT yet proved as theorems (checked by the monitors on every run):
+     C06_monitor_rel : forall c t0 ops, c06_rel_ok c ops (fst (srun c t0 ops)) = true
+     C06_monitor     : forall c t0 ops, limiter_blocked_on_sink c ops (fst (srun c t0 ops)) = false ->
+                                        c06_ok c ops (fst (srun c t0 ops)) = true
+   Environment hypothesis (C16): virtual clock below 2^35 ms (idle-wheel range of the DelayQueue). *)
 From Coq Require Import List Bool Arith NArith.
 Import ListNotations.
-From TarpcV Require Import Base Transport TimerWheel Server ServerMon ServerWitness.
+From TarpcV Require Import Base Transport TimerWheel Server ServerMon ServerWitness ServerSim4 ServerState.
+
+Theorem C06_timer_not_before_deadline :
+  forall (T : Type) id dl (s : @sstate T) h s',
+    start_request id dl s = Some (h, s') ->
+    In (id, when_of (s_now s) dl) (s_timers s')
+    /\ (N.min dl (s_now s + MAX_TIMEOUT) <= when_of (s_now s) dl)%N.
+Proof. exact (@start_request_arms). Qed.
+
+Theorem C06_expiry_never_early :
+  forall (T : Type) (s s' : @sstate T),
+    poll_expired s = (RSReady, s') ->
+    exists id w, In (id, w) (s_timers s) /\ (w <= s_now s)%N
+      /\ s_timers s' = drop_timer id (s_timers s) /\ s_inflight s' = drop_entry id (s_inflight s).
+Proof. exact (@expiry_only_due). Qed.
+
+Theorem C06_expiry_frame :
+  forall (T : Type) (s s' : @sstate T) e,
+    poll_expired s = (RSReady, s') -> In e (s_inflight s') -> In e (s_inflight s).
+Proof. exact (@expiry_frame). Qed.
+
+Theorem C06_idle_means_enforced :
+  forall (T : Type) (tp : transport T response cmsg) f (s s' : @sstate T),
+    base_poll_next tp f s = (PPending, s') -> s_cancels s' = [] /\ due s' = [].
+Proof. intros T tp f s s' H. exact (base_complete tp f s _ s' H). Qed.
 
 (* K2 (known finding): at its limit with the sink not ready MaxRequests does not poll the inner
    channel, so an expired request stays tracked and its handler keeps running. *)
@@ -14,4 +55,25 @@ Theorem C06_limiter_blocked_on_sink_witness :
   /\ nth 6 (tr_of k2_cfg k2_ops) [] = [OHPolled 0; OExecPending 0; OGauges 1 1].
 Proof. exact k2_witness. Qed.
 
+(* non-vacuity: polled 1 ms before the deadline the request lives, at the deadline it is gone and
+   its handler is aborted *)
+Example C06_nonvacuous :
+  fst (srun (mkcfg None 1) t_unbounded
+        [OCtl (TDeliver (MReq 1 100 7 5)); OPoll; OHandlerPoll 0 SRun; OAdvance 99; OPoll;
+         OHandlerPoll 0 SRun; OAdvance 1; OPoll; OHandlerPoll 0 SRun])
+  = [[OGauges 0 0];
+     [OCalls [CNext (RItem (MReq 1 100 7 5)); CReady TOk; CFlush TOk]; OYield 0 1 100 7 5; OGauges 1 1];
+     [OHPolled 0; OExecPending 0; OGauges 1 1];
+     [OGauges 1 1];
+     [OCalls [CNext RPending; CReady TOk; CFlush TOk]; OPending; OGauges 1 1];
+     [OHPolled 0; OExecPending 0; OGauges 1 1];
+     [OGauges 1 1];
+     [OCalls [CNext RPending; CNext RPending; CReady TOk; CFlush TOk]; OPending; OGauges 0 0];
+     [OHDropped 0; OExecReady 0; OGauges 0 0]].
+Proof. vm_compute. reflexivity. Qed.
+
+Print Assumptions C06_timer_not_before_deadline.
+Print Assumptions C06_expiry_never_early.
+Print Assumptions C06_expiry_frame.
+Print Assumptions C06_idle_means_enforced.
 Print Assumptions C06_limiter_blocked_on_sink_witness.
